@@ -546,3 +546,57 @@ def rule_forward(db, chk, cfg, exported):
                               "exported parameter '%s' never reaches a native parameter of its meaning (%s); it reaches %s"
                               % (nm, "/".join(sorted(want)), sorted(got) or "nothing"), f.where, cfg=cfg)
     return n
+
+
+def rule_z_codec(db, chk, cfg, rule="LAYOUT.z-codec"):
+    """USINGZ builds: the third slot of a vertex carries the 64-bit Z value *bit for bit* (the array's element type may be double).
+    Every writer must store it through Reinterpret<element type>(pt.z) and every reader must load it through Reinterpret<z_type>(slot)
+    (or a plain copy when both sides have the same type): a value conversion on one side and a bit copy on the other do not round-trip."""
+    n = 0
+    for f in db.funcs:
+        if f.body is None or f.is_pattern or not (f.file or "").endswith("clipper.export.h"):
+            continue
+        for x in walk(f.body):
+            # writers: <slot> = <expr with .z>
+            if x.get("kind") == "BinaryOperator" and x.get("opcode") == "=":
+                l, r = kids(x)
+                ls = strip(l)
+                if not (ls.get("kind") == "UnaryOperator" and ls.get("opcode") == "*"):
+                    continue
+                zs = [y for y in walk(r) if y.get("kind") == "MemberExpr" and y.get("name") == "z"]
+                if not zs:
+                    continue
+                rs = strip(r)
+                ok = False
+                how = canon(r)
+                if rs.get("kind") == "CallExpr" and db.callee(rs)[0] == "Reinterpret":
+                    a = db.call_args(rs)
+                    ok = len(a) == 1 and strip(a[0]).get("kind") == "MemberExpr" and strip(a[0]).get("name") == "z" and dqt(rs) == dqt(ls)
+                elif rs.get("kind") == "MemberExpr" and rs.get("name") == "z":
+                    ok = dqt(rs).replace("const ", "") == dqt(ls).replace("const ", "")      # same type: a plain copy keeps the bits
+                n += 1
+                chk.instance(rule, {"function": f.qual, "sig": f.sig[:60], "side": "writer", "store": canon(x)[:70], "cfg": cfg}, ok=ok)
+                if not ok:
+                    chk.violation(rule, f.qual, "%s|writer|%s" % (f.sig[:40], how[:40]),
+                                  "the Z slot is written as `%s`: not a bit copy of pt.z into the element type %s (the readers decode the slot with "
+                                  "Reinterpret<z_type>), so Z does not survive the round trip" % (canon(x)[:80], dqt(ls)), where(x), cfg=cfg)
+            # readers: z_type z = <expr reading a slot>
+            if x.get("kind") == "VarDecl" and x.get("name") == "z":
+                init = [c for c in kids(x) if isinstance(c, dict) and c.get("kind")]
+                if not init:
+                    continue
+                r = strip(init[-1])
+                derefs = [y for y in walk(r) if y.get("kind") == "UnaryOperator" and y.get("opcode") == "*"]
+                if not derefs:
+                    continue
+                ok = False
+                if r.get("kind") == "CallExpr" and db.callee(r)[0] == "Reinterpret":
+                    ok = dqt(r) == dqt(x) or qt(r) == qt(x)
+                elif r.get("kind") == "UnaryOperator" and r.get("opcode") == "*":
+                    ok = dqt(r).replace("const ", "") == dqt(x).replace("const ", "")
+                n += 1
+                chk.instance(rule, {"function": f.qual, "sig": f.sig[:60], "side": "reader", "load": canon(x)[:70], "cfg": cfg}, ok=ok)
+                if not ok:
+                    chk.violation(rule, f.qual, "%s|reader" % f.sig[:40], "the Z slot is read as `%s`: not a bit copy into z_type (the writers store "
+                                  "the slot with Reinterpret), so Z does not survive the round trip" % canon(x)[:80], where(x), cfg=cfg)
+    return n
